@@ -62,3 +62,14 @@ class Scratch:
 
     def __exit__(self, *a):
         shutil.rmtree(self.path, ignore_errors=True)
+
+
+def from_code_under_test(e):
+    """True if exception e was raised by (or below) the tree under test rather than by the harness itself:
+    some frame lies in REPO and the innermost frame does not lie in /verif. Harness errors must never be
+    folded into 'skipped' or into a verdict."""
+    import traceback
+    frames = traceback.extract_tb(e.__traceback__)
+    if not any(f.filename.startswith(REPO + os.sep) for f in frames):
+        return False
+    return not frames[-1].filename.startswith(VERIF + os.sep)
